@@ -161,8 +161,12 @@ def password_classes(rnd, big=True):
         ("len256", bytes(rnd.randrange(256) for _ in range(256))),
         ("random", bytes(rnd.randrange(256) for _ in range(rnd.randrange(1, 80)))),
     ]
+    # hash-block and field-size boundaries (a fault that only shows for inputs of a particular length)
+    for n in (31, 32, 33, 55, 56, 63, 64, 65, 111, 112, 127, 128, 129):
+        out.append(("len%d" % n, bytes(rnd.randrange(256) for _ in range(n))))
     if big:
         out.append(("len65535", b"\x61" * 65534 + b"\x62"))
+        out.append(("len65534", bytes(rnd.randrange(256) for _ in range(65534))))
     return out
 
 
@@ -174,6 +178,8 @@ def cred_classes(rnd, big=True):
         ("len64", bytes(rnd.randrange(256) for _ in range(64))),
         ("len1k", bytes(rnd.randrange(256) for _ in range(1024))),
     ]
+    for n in (24, 25, 26, 40, 41, 42, 56, 57, 58, 63, 64, 65, 127, 128, 129, 255, 256, 257):
+        out.append(("len%d" % n, bytes(rnd.randrange(256) for _ in range(n))))
     if big:
         out.append(("len100k", b"\x07" * 102399 + b"\x08"))
     return out
